@@ -32,6 +32,13 @@ Proof. reflexivity. Qed.
 (* GobEncode passes &arg exactly for interface-typed parameters: [is_iface] in encode_arg *)
 Theorem C16_gen_encode_addr : inv_encode_addr_conds = ["typ.Kind() == reflect.Interface"]%string.
 Proof. reflexivity. Qed.
+(* where locations come from: Func records its caller (skip 1), the invocation's
+   location is the caller of Session.Run / Must *)
+Theorem C16_gen_func_caller_skip : func_caller_skips = ["1"]%string.
+Proof. reflexivity. Qed.
+Theorem C16_gen_run_location_skips :
+  run_location_skips = ["calldepth + 1"; "Session.Run: 1"; "Session.Must: 1"]%string.
+Proof. reflexivity. Qed.
 Theorem C16_gen_direct_fields :
   inv_direct_fields = ["Index"; "Func"; "Exclusive"; "Location"; "Env"]%string.
 Proof. reflexivity. Qed.
@@ -83,6 +90,21 @@ Theorem C16_diff_minimal : forall (l r : list string) es, lhs_of es = l -> rhs_o
   changes (diff_tagged l r) <= changes es.
 Proof. exact diff_minimal. Qed.
 Print Assumptions C16_diff_minimal.
+
+(* the registry comparison: when Funcs are told apart by their creation sites the
+   diff of two registries is nil exactly when they are the same sequence of Funcs *)
+Theorem C16_registry_diff_nil_iff : forall (F : Type) (site : F -> string),
+  (forall f g, site f = site g -> f = g) ->
+  forall driver worker : list F,
+  func_locations_diff (func_locations (map site driver)) (func_locations (map site worker)) = DLines []
+  <-> driver = worker.
+Proof. exact @registry_diff_nil_iff. Qed.
+Print Assumptions C16_registry_diff_nil_iff.
+(* and it would be blind if every Func recorded the same location *)
+Theorem C16_constant_site_blind : forall (F : Type) (s : string) (driver worker : list F),
+  List.length driver = List.length worker ->
+  func_locations_diff (map (fun _ => s) driver) (map (fun _ => s) worker) = DLines [].
+Proof. exact @constant_site_blind. Qed.
 
 Example C16_diff_example :
   func_locations_diff ["a"; "b"; "c"]%string ["a"; "c"]%string = DLines ["a"; "- b"; "c"]%string.
